@@ -138,6 +138,19 @@ def _case(draw):
         if draw(st.booleans()):
             aa1, aa2 = aa2, aa1
         rel.append("print-alike-a")
+    zero = draw(st.integers(0, 11))
+    if zero < 2:
+        # one operand has no alternative at all on one side (as a merge of disjoint contracts returns): the empty union
+        side = draw(st.sampled_from(["g1", "g2", "a1", "a2"]))
+        if side == "g1":
+            g1 = []
+        elif side == "g2":
+            g2 = []
+        elif side == "a1":
+            aa1 = []
+        else:
+            aa2 = []
+        rel.append("zero-alternatives-" + side)
     return {"op": op, "a1": aa1, "a2": aa2, "g1": g1, "g2": g2, "rel": rel}
 
 
@@ -286,7 +299,9 @@ def run_case(case):
         # membership queries on the merged lists (possibly with zero alternatives) agree with their alternatives
         for part, nl in (("assumptions", m.a), ("guarantees", m.g)):
             alts = [env.tl_data(t) for t in nl.nested_termlist]
-            for pt in ({"a": 0.0, "b": 0.0, "x": 0.0}, {"a": float(case["a1"][0][1][1]) * -1, "b": 1.0, "x": float(case["g1"][0][0][1])}):
+            pa = float(case["a1"][0][1][1]) * -1 if case["a1"] else 1.0
+            px = float(case["g1"][0][0][1]) if case["g1"] else 1.0
+            for pt in ({"a": 0.0, "b": 0.0, "x": 0.0}, {"a": pa, "b": 1.0, "x": px}):
                 try:
                     got = nl.contains_behavior({env.Var(k): v for k, v in pt.items()})
                 except ValueError:
